@@ -214,6 +214,44 @@ pub fn judge(c: &FileCase, ev: &mut Local) -> Result<(), Fail> {
             );
         }
     }
+    // the same bytes at another stream position (a file inside a container, two files back to back in one stream): same verdict,
+    // same structure; and what the writer produces does not depend on where in the stream it starts
+    if c.bytes.len() <= 16 * 1024 {
+        for k in [1usize, 2, 4, 5, 12] {
+            let mut buf = vec![0xA5u8; k];
+            buf.extend_from_slice(&c.bytes);
+            let shifted = guard(|| -> Result<(String, Vec<u8>), ()> {
+                let mut cur = Cursor::new(&buf[..]);
+                cur.set_position(k as u64);
+                let mut out = Cursor::new(vec![0xA5u8; k]);
+                out.set_position(k as u64);
+                let dbg = match c.fmt {
+                    Format::Pth => {
+                        let v = Pth::read(&mut cur).map_err(|_| ())?;
+                        v.write(&mut out).map_err(|_| ())?;
+                        format!("{v:?}")
+                    },
+                    Format::Smx => {
+                        let v = Smx::read(&mut cur).map_err(|_| ())?;
+                        v.write(&mut out).map_err(|_| ())?;
+                        format!("{v:?}")
+                    },
+                };
+                Ok((dbg, out.into_inner()[k..].to_vec()))
+            })
+            .map_err(|p| Fail::new(format!("c17:{f}-parser-panics"), format!("{} read at stream position {k}: {p}", c.label)))?;
+            let whole: Result<(&String, &Vec<u8>), ()> = call.parsed.as_ref().map(|(d, w)| (d, w)).map_err(|_| ());
+            ensure!(
+                shifted.as_ref().map(|(d, w)| (d, w)).map_err(|_| ()) == whole,
+                format!("c17:{f}-depends-on-the-stream-position"),
+                "{} ({} bytes): at stream position 0 {}, at stream position {k} {}",
+                c.label,
+                c.bytes.len(),
+                whole.map(|(d, w)| format!("{} (re-written: {} bytes)", d.chars().take(80).collect::<String>(), w.len())).unwrap_or("rejected".into()),
+                shifted.as_ref().map(|(d, w)| format!("{} (re-written: {} bytes)", d.chars().take(80).collect::<String>(), w.len())).unwrap_or("rejected (or not writable)".into())
+            );
+        }
+    }
     match &call.parsed {
         Err(e) => {
             ensure!(!c.canonical, format!("c17:{f}-valid-file-rejected"), "{}: a complete file of {} bytes was rejected: {e}", c.label, c.bytes.len());
